@@ -23,6 +23,7 @@ import os, re, sys
 # ---------------------------------------------------------------- lexer
 TOK = re.compile(r"""
     (?P<ws>\s+|//[^\n]*|/\*.*?\*/)
+  | (?P<str>"(?:[^"\\]|\\.)*")
   | (?P<int>\d[\d_]*(?:\.\d[\d_]*)?(?:[ui](?:8|16|32|64|128|size)|f32|f64)?)
   | (?P<id>[A-Za-z_][A-Za-z0-9_]*)
   | (?P<op>::|->|=>|==|!=|<=|>=|&&|\|\||\.\.|[-+*/%<>=!&|.,;:(){}\[\]#?])
@@ -94,20 +95,33 @@ class P:
         if self.peek() == "!":
             self.eat()
             return ("not", self.unary(nostruct))
-        if self.peek() == "*":      # deref: transparent
+        if self.peek() in ("*", "&"):      # deref / borrow: transparent
             self.eat()
+            if self.peek() == "mut":
+                self.eat()
             return self.unary(nostruct)
         return self.postfix(self.atom(nostruct))
 
     def postfix(self, e):
-        while self.peek() == ".":
-            self.eat()
+        while self.peek() in (".", "["):
+            if self.eat() == "[":
+                i = self.expr()
+                self.eat("]")
+                e = ("index", e, i)
+                continue
             name = self.eat()
             if self.peek() == "(":
                 e = ("mcall", e, name, self.args())
             else:
                 e = ("field", e, name)
         return e
+
+    def block(self):
+        """`{ stmts }`: a statement list whose last element may be a ("tail", e)"""
+        self.eat("{")
+        b = self.stmts()
+        self.eat("}")
+        return b
 
     def args(self):
         self.eat("(")
@@ -127,6 +141,20 @@ class P:
             if "." in v or (m.group(2) or "").startswith("f"):
                 raise Fail(f"float literal {v} outside the translated subset")
             return ("int", int(m.group(1).replace("_", "")), m.group(2))
+        if k == "str":
+            self.eat()
+            return ("str", v)
+        if v == "|":
+            self.eat()
+            ps = []
+            while self.peek() != "|":
+                if self.peek() == "&":
+                    self.eat()
+                ps.append(self.eat())
+                if self.peek() == ",":
+                    self.eat()
+            self.eat("|")
+            return ("closure", ps, self.expr())
         if v == "(":
             self.eat()
             items = []
@@ -152,11 +180,22 @@ class P:
             return ("match", scrut, arms)
         if v == "if":
             self.eat()
+            if self.peek() == "let":
+                self.eat()
+                pat = self.pattern()
+                self.eat("=")
+                scrut = self.expr(nostruct=True)
+                a = self.block()
+                self.eat("else")
+                b = self.block()
+                return ("ifletx", pat, scrut, a, b)
             c = self.expr(nostruct=True)
-            a = self.block_expr()
+            a = self.block()
             self.eat("else")
-            b = self.block_expr()
-            return ("ife", c, a, b)
+            b = self.block()
+            if len(a) == 1 and a[0][0] == "tail" and len(b) == 1 and b[0][0] == "tail":
+                return ("ife", c, a[0][1], b[0][1])
+            return ("ifx", c, a, b)
         if k == "id":
             self.eat()
             path = [v]
@@ -165,6 +204,9 @@ class P:
                 path.append(self.eat())
             if self.peek() == "(":
                 return ("call", path, self.args())
+            if self.peek() == "!" and self.peek(1) == "(" and len(path) == 1:
+                self.eat()
+                return ("macro", v, self.args())
             if len(path) == 1:
                 return ("var", v)
             return ("path", path)
@@ -179,6 +221,20 @@ class P:
             x = self.eat()
             self.eat(")")
             return ("psome", x)
+        if self.peek() == "::":
+            path = [v]
+            while self.peek() == "::":
+                self.eat()
+                path.append(self.eat())
+            binders = []
+            if self.peek() == "(":
+                self.eat()
+                while self.peek() != ")":
+                    binders.append(self.eat())
+                    if self.peek() == ",":
+                        self.eat()
+                self.eat(")")
+            return ("penum", path, binders)
         raise Fail(f"pattern {v!r} outside the translated subset")
 
     def block_expr(self):
@@ -230,10 +286,33 @@ class P:
             return ("let", name, e)
         if v == "return":
             self.eat()
+            if self.peek() == ";":
+                self.eat()
+                return ("return", None)
             e = self.expr()
             if self.peek() == ";":
                 self.eat()
             return ("return", e)
+        if v == "match":
+            save = self.i
+            self.eat()
+            scrut = self.expr(nostruct=True)
+            self.eat("{")
+            arms = []
+            while self.peek() != "}":
+                pat = self.pattern()
+                self.eat("=>")
+                if self.peek() == "{":
+                    body = self.block()
+                else:
+                    body = [("exprstmt", self.expr())]
+                arms.append((pat, body))
+                if self.peek() == ",":
+                    self.eat()
+            self.eat("}")
+            if all(a[0][0] == "penum" for a in arms):
+                return ("matchstmt", scrut, arms)
+            self.i = save       # not an enum match: an ordinary expression
         if v == "if":
             self.eat()
             if self.peek() == "let":
@@ -332,7 +411,7 @@ class Gen:
 
     def __init__(self, struct, fields, consts, ignore_calls, field_map=None):
         self.struct, self.fields, self.consts, self.ignore = struct, dict(fields), consts, ignore_calls
-        self.inline = {}
+        self.inline, self.inline_expr, self.default_of, self.enums = {}, {}, {}, {}
         self.field_map = field_map or {}
 
     def ftype(self, f):
@@ -440,6 +519,12 @@ class Gen:
         if k == "call":
             path, args = e[1], e[2]
             name = "::".join(path)
+            if name in ("Ord::min", "usize::min", "u64::min") and len(args) == 2:
+                ga, a, ta = self.expr(args[0], env)
+                gb, b, tb = self.expr(args[1], env)
+                return ga + gb, f"(min {a} {b})", self.join_ty(ta, tb, "min")
+            if len(path) == 2 and path[1] == "default" and not args and path[0] in self.default_of:
+                return [], self.default_of[path[0]][0], self.default_of[path[0]][1]
             if name == "Duration::from_nanos" and len(args) == 1:
                 g, t, ty = self.expr(args[0], env)
                 return g, t, "Duration"
@@ -453,6 +538,34 @@ class Gen:
             raise Fail(f"call {name} outside the translated subset")
         if k == "mcall":
             recv, m, args = e[1], e[2], e[3]
+            if recv == ("var", "self") and m in self.inline_expr and not args:
+                params, ret, body = self.inline_expr[m]
+                st = P(lex(body)).stmts()
+                if params or len(st) != 1 or st[0][0] != "tail":
+                    raise Fail(f"cannot inline self.{m}() as an expression")
+                return self.expr(st[0][1], env)
+            if m == "len" and not args:
+                g, t, ty = self.expr(recv, env)
+                if not (isinstance(ty, tuple) and ty[0] == "vec"):
+                    raise Fail(f"len() on {ty}")
+                return g, f"{t}.length", "usize"
+            if m == "contains" and len(args) == 1:
+                g, t, ty = self.expr(recv, env)
+                ga, a, ta = self.expr(args[0], env)
+                if not (isinstance(ty, tuple) and ty[0] == "vec"):
+                    raise Fail(f"contains() on {ty}")
+                return g + ga, f"({a} ∈ {t})", "bool"
+            if (m == "unwrap" and not args and recv[0] == "mcall" and recv[2] == "position" and len(recv[3]) == 1
+                    and recv[1][0] == "mcall" and recv[1][2] == "iter"):
+                # v.iter().position(|i| *i == x).unwrap(): index of the first element equal to x; panics when there is none
+                g, t, ty = self.expr(recv[1][1], env)
+                cl = recv[3][0]
+                if not (cl[0] == "closure" and len(cl[1]) == 1 and cl[2][0] == "bin" and cl[2][1] == "=="
+                        and ("var", cl[1][0]) in (cl[2][2], cl[2][3])):
+                    raise Fail("position(closure): closure outside the translated subset")
+                other = cl[2][3] if cl[2][2] == ("var", cl[1][0]) else cl[2][2]
+                ga, a, ta = self.expr(other, env)
+                return g + ga + [f"{a} ∈ {t}"], f"({t}.idxOf {a})", "usize"
             if m == "load" and len(args) == 1:
                 return self.expr(recv, env)
             if m == "as_nanos" and not args:
@@ -512,6 +625,63 @@ class Gen:
         s, rest = stmts[0], stmts[1:]
         k = s[0]
         nxt = lambda env2, ind2=ind: self.block(rest, env2, ind2, cont)
+        if k == "let" and s[2][0] in ("ifletx", "ifx"):
+            # `let x = if [let P = E] { stmts; tail } else { stmts; tail };` -- both branches continue with the rest
+            name, rhs = s[1], s[2]
+            def finish(blk, env_b, ind_b):
+                if not blk or blk[-1][0] != "tail":
+                    raise Fail("block used as a value has no tail expression")
+                def k_tail(e3, i3):
+                    g, t, ty = self.expr(blk[-1][1], e3)
+                    e4 = dict(e3)
+                    for key in list(e4):
+                        if key not in env and not key.startswith("self."):
+                            del e4[key]          # names local to the branch go out of scope
+                    e4[name] = (name, ty)
+                    return self.guard(g, f"{i3}let {name} := {t}\n" + self.block(rest, e4, i3, cont), i3)
+                return self.block(blk[:-1], env_b, ind_b, k_tail)
+            if rhs[0] == "ifx":
+                g, c, ty = self.expr(rhs[1], env)
+                return self.guard(g, f"{ind}if {c} then\n{finish(rhs[2], env, ind + '  ')}\n{ind}else\n{finish(rhs[3], env, ind + '  ')}", ind)
+            pat, scrut = rhs[1], rhs[2]
+            if pat[0] != "psome":
+                raise Fail("if-let pattern outside the translated subset")
+            if scrut[0] == "mcall" and scrut[2] == "pop" and not scrut[3]:
+                # Vec::pop(): the last element, removed
+                key = self.lhs_key(scrut[1])
+                ln, vty = env[key]
+                if not (isinstance(vty, tuple) and vty[0] == "vec"):
+                    raise Fail("pop() on a non-Vec")
+                env_a = dict(env)
+                env_a[pat[1]] = (pat[1], vty[1])
+                ta = f"{ind}    let {ln} := {ln}.dropLast\n" + finish(rhs[3], env_a, ind + "    ")
+                tb = finish(rhs[4], env, ind + "    ")
+                return f"{ind}(match {ln}.getLast? with\n{ind}  | some {pat[1]} =>\n{ta}\n{ind}  | none =>\n{tb})"
+            raise Fail("if-let expression outside the translated subset")
+        if k == "matchstmt":
+            g, t, ty = self.expr(s[1], env)
+            if ty not in self.enums:
+                raise Fail(f"match on {ty}")
+            arms = []
+            for pat, body in s[2]:
+                if pat[1][0] != ty or pat[1][1] not in dict(self.enums[ty]):
+                    raise Fail(f"pattern {pat[1]} is not a variant of {ty}")
+                fields = dict(self.enums[ty])[pat[1][1]]
+                if len(fields) != len(pat[2]):
+                    raise Fail(f"pattern {pat[1]}: arity")
+                env_a = dict(env)
+                for b, ft in zip(pat[2], fields):
+                    env_a[b] = (b, ft)
+                def k_arm(e3, i3, binders=tuple(pat[2])):
+                    e4 = dict(e3)
+                    for key in list(e4):
+                        if key not in env and not key.startswith("self."):
+                            del e4[key]
+                    return self.block(rest, e4, i3, cont)
+                arms.append(f"{ind}  | .{pat[1][1]}{''.join(' ' + b for b in pat[2])} =>\n" + self.block(body, env_a, ind + "    ", k_arm))
+            if sorted(p[1][1] for p, _ in s[2]) != sorted(v for v, _ in self.enums[ty]):
+                raise Fail(f"match on {ty} is not exhaustive over the declared variants")
+            return self.guard(g, f"{ind}(match {t} with\n" + "\n".join(arms) + ")", ind)
         if k == "let":
             g, t, ty = self.expr(s[2], env)
             env2 = dict(env)
@@ -528,6 +698,13 @@ class Gen:
                 raise Fail("only pairs are destructured")
             tmp = "p_" + "_".join(s[1])
             return self.guard(g, f"{ind}let {tmp} := {t}\n{ind}let {s[1][0]} := {tmp}.1\n{ind}let {s[1][1]} := {tmp}.2\n" + nxt(env2), ind)
+        if k == "assign" and s[1][0] == "index":
+            # v[i] = e : panics when i is out of bounds
+            key = self.lhs_key(s[1][1])
+            ln, vty = env[key]
+            gi, i, ti = self.expr(s[1][2], env)
+            g, t, ty = self.expr(s[2], env)
+            return self.guard(gi + g + [f"{i} < {ln}.length"], f"{ind}let {ln} := {ln}.set {i} {t}\n" + nxt(dict(env)), ind)
         if k == "assign":
             key = self.lhs_key(s[1])
             g, t, ty = self.expr(s[2], env)
@@ -543,6 +720,33 @@ class Gen:
                 env2 = dict(env)
                 env2[key] = env[key]
                 return self.guard(g, f"{ind}let {env[key][0]} := {t}\n" + nxt(env2), ind)
+            if e[0] == "macro" and e[1] in ("assert_eq", "assert") :
+                args = [a for a in e[2] if a[0] != "str"]
+                if e[1] == "assert_eq" and len(args) == 2:
+                    ga, a, ta = self.expr(args[0], env)
+                    gb, b, tb = self.expr(args[1], env)
+                    return self.guard(ga + gb + [f"{a} = {b}"], nxt(env), ind)
+                if e[1] == "assert" and len(args) == 1:
+                    ga, a, ta = self.expr(args[0], env)
+                    return self.guard(ga + [a], nxt(env), ind)
+                raise Fail(f"{e[1]}! with {len(args)} arguments")
+            if e[0] == "mcall" and e[2] in ("push", "insert", "retain") and self.is_vec(e[1], env):
+                key = self.lhs_key(e[1])
+                ln, vty = env[key]
+                if e[2] == "push" and len(e[3]) == 1:
+                    g, t, ty = self.expr(e[3][0], env)
+                    return self.guard(g, f"{ind}let {ln} := {ln} ++ [{t}]\n" + nxt(dict(env)), ind)
+                if e[2] == "insert" and len(e[3]) == 2:
+                    # Vec::insert(i, x): panics when i > len
+                    gi, i, ti = self.expr(e[3][0], env)
+                    g, t, ty = self.expr(e[3][1], env)
+                    return self.guard(gi + g + [f"{i} ≤ {ln}.length"], f"{ind}let {ln} := {ln}.take {i} ++ [{t}] ++ {ln}.drop {i}\n" + nxt(dict(env)), ind)
+                if e[2] == "retain" and len(e[3]) == 1:
+                    cl = e[3][0]
+                    if not (cl[0] == "closure" and len(cl[1]) == 1 and cl[2][0] == "bin" and cl[2][1] == "!=" and cl[2][2] == ("var", cl[1][0])):
+                        raise Fail("retain(closure): closure outside the translated subset")
+                    g, t, ty = self.expr(cl[2][3], env)
+                    return self.guard(g, f"{ind}let {ln} := {ln}.filter (· ≠ {t})\n" + nxt(dict(env)), ind)
             if e[0] == "mcall" and e[2] in ("fetch_add", "fetch_sub") and len(e[3]) == 2:
                 # atomic read-modify-write on an unsigned integer: wraps, never panics; the fetched value is discarded
                 key = self.lhs_key(e[1])
@@ -578,6 +782,8 @@ class Gen:
                     return self.block(rest, e4, i3, cont)
                 return self.guard(gs, pre + self.block(callee, env2, ind, after), ind)
             raise Fail(f"statement outside the translated subset: {e}")
+        if k == "return" and s[1] is None:
+            return self.ret("()", env, ind)
         if k == "return":
             g, t, ty = self.expr(s[1], env)
             return self.guard(g, self.ret(t, env, ind), ind)
@@ -607,6 +813,13 @@ class Gen:
             return self.guard(g, f"{ind}(match {t} with\n{ind}  | some {pat[1]} =>\n{ta}\n{ind}  | none =>\n{tb})", ind)
         raise Fail(f"statement {k} outside the translated subset")
 
+    def is_vec(self, e, env):
+        try:
+            key = self.lhs_key(e)
+        except Fail:
+            return False
+        return key in env and isinstance(env[key][1], tuple) and env[key][1][0] == "vec"
+
     def lhs_key(self, e):
         if e[0] == "field" and e[1] == ("var", "self"):
             return "self." + e[2]
@@ -615,18 +828,31 @@ class Gen:
         raise Fail(f"assignment target outside the translated subset: {e}")
 
 
-def translate_fn(src, impl, fn, lean_struct, fields, out_fields, consts, ignore=(), inline=()):
+def field_type(t):
+    t = ATOMIC.get(t, t)
+    m = re.match(r"Option<(\w+)>$", t)
+    if m:
+        return ("opt", m.group(1))
+    m = re.match(r"Vec<(\w+)>$", t)
+    if m:
+        return ("vec", m.group(1))
+    return t
+
+
+def translate_fn(src, impl, fn, lean_struct, fields, out_fields, consts, ignore=(), inline=(), inline_expr=(), default_of=None, enums=None,
+                 generics=""):
     """fields: list of (rust key like 'self.capacity', lean field name, type). returns Lean source of the def"""
     params, ret, body = find_fn(src, impl, fn)
     g = Gen(impl, [], consts, set(ignore))
     g.out_fields = [(k, f) for k, f, _ in fields]
     g.inline = {m: find_fn(src, impl, m) for m in inline}
+    g.inline_expr = {m: find_fn(src, impl, m) for m in inline_expr}
+    g.default_of = default_of or {}
+    g.enums = enums or {}
     env = {}
     lines = []
     for k, f, t in fields:
-        t = ATOMIC.get(t, t)
-        m = re.match(r"Option<(\w+)>$", t)
-        ty = ("opt", m.group(1)) if m else t
+        ty = field_type(t)
         ln = "s_" + f
         env[k] = (ln, ty)
         lines.append(f"  let {ln} := self.{f}")
@@ -635,15 +861,18 @@ def translate_fn(src, impl, fn, lean_struct, fields, out_fields, consts, ignore=
         if t in INT_T or t in ("Instant", "Duration"):
             env[n] = (n, t)
             ps.append(f"({n} : Nat)")
+        elif t in g.enums:
+            env[n] = (n, t)
+            ps.append(f"({n} : {t})")
         else:
             raise Fail(f"{impl}::{fn}: parameter type {t} outside the translated subset")
     stmts = P(lex(body)).stmts()
-    retty = "Bool" if ret == "bool" else "Unit"
+    retty = "Bool" if ret == "bool" else "Nat" if ret in INT_T else "Unit"
     fall = (lambda env2, ind: g.ret("()", env2, ind)) if ret == "()" else (lambda env2, ind: (_ for _ in ()).throw(Fail(f"{impl}::{fn}: control reaches the end of a non-unit function")))
     code = g.block(stmts, env, "  ", fall)
     name = f"{lean_struct}.{camel(fn)}"
     return (f"/-- `{impl}::{fn}` ({', '.join(n + ': ' + t for n, t in params)}) -> {ret} -/\n"
-            f"def {name} (self : {lean_struct}) {' '.join(ps)} : Option ({retty} × {lean_struct}) :=\n" + "\n".join(lines) + "\n" + code + "\n")
+            f"def {name} {generics}(self : {lean_struct}) {' '.join(ps)} : Option ({retty} × {lean_struct}) :=\n" + "\n".join(lines) + "\n" + code + "\n")
 
 
 def camel(s):
@@ -714,6 +943,33 @@ def main():
     lf = [("self.state.len", "len", "Option<u64>")]
     for fn in ("set_length", "unset_length", "inc_length", "dec_length"):
         o.append(translate_fn(stt, "BarState", fn, "LenState", lf, None, {}, ignore=("update_estimate_and_draw",)))
+    # ---- MultiState: slot bookkeeping (members / free_set / ordering)
+    mu = open(os.path.join(repo, "src/multi.rs")).read()
+    ms = dict(find_struct(mu, "MultiState"))
+    for f, t in (("members", "Vec<MultiStateMember>"), ("free_set", "Vec<usize>"), ("ordering", "Vec<usize>")):
+        if ms.get(f) != t:
+            raise Fail(f"MultiState.{f}: expected {t}, found {ms.get(f)}")
+    m = re.search(r"enum\s+InsertLocation\s*\{([^}]*)\}", mu)
+    if not m:
+        raise Fail("enum InsertLocation not found")
+    variants = []
+    for v in strip_comments(m.group(1)).split(","):
+        v = v.strip()
+        if not v:
+            continue
+        vm = re.match(r"(\w+)(?:\((\w+)\))?$", v)
+        if not vm or (vm.group(2) and vm.group(2) not in INT_T):
+            raise Fail(f"enum InsertLocation: variant not understood: {v!r}")
+        variants.append((vm.group(1), [vm.group(2)] if vm.group(2) else []))
+    o.append("/-- `enum InsertLocation` of src/multi.rs -/\ninductive InsertLocation where\n"
+             + "".join(f"  | {v}{''.join(' (a : Nat)' for _ in fs)}\n" for v, fs in variants) + "deriving Repr, DecidableEq\n")
+    o.append("/-- the slot bookkeeping fields of `MultiState`; `M` stands for `MultiStateMember` -/\n"
+             "structure MultiSlots (M : Type) where\n  members : List M\n  free_set : List Nat\n  ordering : List Nat\n")
+    mf = [("self.members", "members", "Vec<M>"), ("self.free_set", "free_set", "Vec<usize>"), ("self.ordering", "ordering", "Vec<usize>")]
+    kw = dict(inline_expr=("len",), default_of={"MultiStateMember": ("dflt", "M")}, enums={"InsertLocation": variants},
+              generics="{M : Type} (dflt : M) ")
+    o.append(translate_fn(mu, "MultiState", "insert", "(MultiSlots M)", mf, None, {}, **kw).replace("def (MultiSlots M).", "def MultiSlots."))
+    o.append(translate_fn(mu, "MultiState", "remove_idx", "(MultiSlots M)", mf, None, {}, **kw).replace("def (MultiSlots M).", "def MultiSlots."))
     o.append("end IndicatifModel.Generated\n")
     text = "\n".join(o)
     if not os.path.exists(out) or open(out).read() != text:
